@@ -31,8 +31,11 @@ RULE = ('Hypothesis-generated cases = (1-3 cache actors out of load / include (r
         'on miss parse + store) / store, each with a scanner version 0|1 (1 = constructed after a scanner-version '
         'change: purge), 0-2 rewrites of the source GIR by a fourth actor, initial entry absent/valid/older/touched/'
         'truncated/garbage/unreadable, .cache-version present/absent, same-fs rename vs cross-fs copy+unlink, buffer '
-        'chunk size, optional kill -9 point, and the interleaving as a list of actor choices over the file-system '
-        'steps); a final sequential probe load observes the end state. thorough adds the bounded-exhaustive '
+        'chunk size, optional kill -9 point (after N steps, or just before the k-th step of a given kind), and the '
+        'interleaving as a list of directives over the file-system steps (pick the i-th runnable actor for one '
+        'step / run actor a until it is about to make a step of kind K / let actor a make n steps); flavours bias '
+        'towards writer-vs-reader races, rewrites between parse and store, purges and mid-read replacement; a final '
+        'sequential probe load observes the end state. thorough adds the bounded-exhaustive '
         'enumeration of all interleavings of two operations (steps on actor-private files merged). end-to-end: '
         'generated headers using GObject/GLib types run cold/warm/cache-disabled. non-trivial = a store\'s '
         'rename/copy step falls between a load\'s open and its last step, or a source rewrite falls between a parse '
@@ -1632,8 +1635,12 @@ def _case(draw):
         t = draw(st.tuples(st.sampled_from(['listdir', 'unlink', 'mkstemp', 'write', 'rename', 'copy-open-dst', 'copystat']),
                            st.integers(0, 12), st.integers(0, 3), st.booleans()))
         if t[3]:
-            # a reader is inside its load (entry opened) when the purge goes on
-            sched = [['u', 1, 'stat'], ['u', 0, t[0]], ['s', 0, 1 + t[2]]] + draw(_directed())
+            # a reader of the old version is inside its load (entry opened) when the purge removes the entry
+            n = max(n, 2)
+            actors = (actors + [{'op': 'load', 'ver': 0}])[:n]
+            actors[1] = {'op': draw(st.sampled_from(['load', 'include'])), 'ver': 0}
+            sched = [['u', 1, 'stat'], ['u', 0, draw(st.sampled_from(['unlink', 'unlink', 'listdir', t[0]]))],
+                     ['s', 0, 1 + t[2]]] + draw(_directed())
         else:
             sched = [['u', 0, t[0]], ['s', 1, t[1]], ['s', 0, t[2]]] + draw(_directed())
     elif flavour == 'midread':
